@@ -3746,6 +3746,18 @@ class RockRidgeContinuationBlock:
 
         return offset
 
+    def is_empty(self):
+        # type: () -> bool
+        """
+        Determine whether this Rock Ridge Continuation Block holds no entries.
+
+        Parameters:
+         None.
+        Returns:
+         True if there are no entries in this block, False otherwise.
+        """
+        return not self._entries
+
     def remove_entry(self, offset, length):
         # type: (int, int) -> None
         """
